@@ -405,7 +405,16 @@ class _Expr:
                 out.append((s2, V(SEQ(et), SubSeq(s, lo, z3.simplify(ln)))))
         return out
 
+    def named(self, st, term):
+        """A fresh constant equal to term (keeps ite/arithmetics out of quantifier patterns)."""
+        if z3.is_const(term) and term.decl().kind() == z3.Z3_OP_UNINTERPRETED:
+            return term
+        c = fresh('t', term.sort())
+        st.assume(c == term)
+        return c
+
     def reverse_seq(self, st, s, et):
+        s = self.named(st, s)
         r = fresh('rev', SeqSortOf(sort_of(et)))
         j = z3.Int('rv_j')
         st.assume(Length(r) == Length(s))
@@ -426,7 +435,12 @@ class _Expr:
         return out
 
     def ev_BoolOp(self, node, st):
-        # Python returns one of the operands; we fork on truthiness to keep the operand's type
+        # Python returns one of the operands.  When the later operands are pure single-path expressions the
+        # result is merged with ite (no path split); otherwise we fork on truthiness.
+        merged = self.boolop_merged(node, st)
+        if merged is not None:
+            return merged
+
         def go(s, vals):
             res = []
             for s1, v in self.ev(vals[0], s):
@@ -444,9 +458,40 @@ class _Expr:
                 if not self.dead(cont):
                     res.extend(go(cont, vals[1:]))
             return res
-        rs = go(st, node.values)
-        # merge all-bool results of a pure expression back into one path when cheap
-        return rs
+        return go(st, node.values)
+
+    def boolop_merged(self, node, st):
+        first = self.ev(node.values[0], st)
+        if len(first) != 1:
+            return None
+        s, acc = first[0]
+        vals = [acc]
+        nraised, nobl, npc = len(self.raised), len(self.obls), len(s.pc)
+        for e in node.values[1:]:
+            probe = s.clone()
+            try:
+                rs = self.ev(e, probe)
+            except Unsupported:
+                rs = []
+            if len(rs) != 1 or len(self.raised) != nraised or len(self.obls) != nobl or len(rs[0][0].pc) != npc \
+                    or any(not a.eq(b) for a, b in zip(rs[0][0].heap.arrays.values(), s.heap.arrays.values())) \
+                    or len(rs[0][0].heap.arrays) != len(s.heap.arrays):
+                del self.raised[nraised:]
+                del self.obls[nobl:]
+                return None if len(vals) == 1 else None
+            vals.append(rs[0][1])
+        kinds = {v.ty for v in vals}
+        if len(kinds) > 1 or vals[0].ty.kind == 'tup':
+            try:
+                vals = [V(OBJ, box(v)) for v in vals]
+            except TypeError:
+                return None
+        ty = vals[0].ty
+        res = vals[-1].t
+        for v in reversed(vals[:-1]):
+            t = self.truth(s, v)
+            res = z3.If(t, res, v.t) if isinstance(node.op, ast.And) else z3.If(t, v.t, res)
+        return [(s, V(ty, res))]
 
     def dead(self, st):
         """Cheap syntactic infeasibility test (keeps the path count down)."""
@@ -823,6 +868,8 @@ class _Calls:
                 val = self.read_field(s, o.t, attr)
                 if val.ty.kind == 'obj':
                     out.append((s, vobj(z3.If(has(o.t), val.t, box(d)))))
+                elif val.ty == d.ty and val.ty.kind != 'tup':
+                    out.append((s, V(val.ty, z3.If(has(o.t), val.t, d.t))))
                 else:
                     a, b = s, s.clone()
                     a.assume(has(o.t)); b.assume(z3.Not(has(o.t)))
@@ -1240,14 +1287,67 @@ class _Stmts:
         out = []
         for s, c in self.ev(stmt.test, st):
             t = z3.simplify(self.truth(s, c))
+            n0 = len(s.pc)
             a, b = s, s.clone()
             a.assume(t); b.assume(z3.Not(t))
             a.trace.append('L%d:T' % stmt.lineno); b.trace.append('L%d:F' % stmt.lineno)
-            if not z3.is_false(t):
-                out.extend(self.run(stmt.body, a))
-            if not z3.is_true(t):
-                out.extend(self.run(stmt.orelse, b))
+            ra = self.run(stmt.body, a) if not z3.is_false(t) else []
+            rb = self.run(stmt.orelse, b) if not z3.is_true(t) else []
+            fa = [x for x in ra if x[1].kind == FALL]
+            fb = [x for x in rb if x[1].kind == FALL]
+            merged = None
+            if len(fa) == 1 and len(fb) == 1 and not z3.is_false(t) and not z3.is_true(t):
+                merged = self.merge_states(n0, t, fa[0][0], fb[0][0])
+            if merged is not None:
+                out.extend(x for x in ra + rb if x[1].kind != FALL)
+                out.append((merged, Out(FALL)))
+            else:
+                out.extend(ra + rb)
         return out
+
+    def merge_states(self, n0, t, sa, sb):
+        """Join two fall-through states of an if/else into one (ite on variables and heap arrays)."""
+        if sa.pc[:n0] != sb.pc[:n0] and any(not x.eq(y) for x, y in zip(sa.pc[:n0], sb.pc[:n0])):
+            return None
+        env = {}
+        for k in set(sa.env) | set(sb.env):
+            va, vb = sa.env.get(k), sb.env.get(k)
+            if va is None or vb is None:
+                env[k] = va or vb
+                continue
+            m = self.merge_values(t, va, vb)
+            if m is None:
+                return None
+            env[k] = m
+        st = St(sa.heap.clone())
+        st.pc = list(sa.pc[:n0])
+        xa, xb = sa.pc[n0 + 1:], sb.pc[n0 + 1:]
+        if xa:
+            st.pc.append(z3.Implies(t, z3.And(*xa) if len(xa) > 1 else xa[0]))
+        if xb:
+            st.pc.append(z3.Implies(z3.Not(t), z3.And(*xb) if len(xb) > 1 else xb[0]))
+        st.env = env
+        for fld in set(sa.heap.arrays) | set(sb.heap.arrays):
+            A, B = sa.heap.get(fld), sb.heap.get(fld)
+            st.heap.set(fld, A if A.eq(B) else z3.If(t, A, B))
+        st.cur_exc = sa.cur_exc
+        st.trace = sa.trace[:-1] + ['%s|F' % sa.trace[-1]] if sa.trace else []
+        return st
+
+    def merge_values(self, t, va, vb):
+        if va.ty == vb.ty:
+            if va.ty.kind == 'tup':
+                parts = [self.merge_values(t, x, y) for x, y in zip(va.t, vb.t)]
+                if any(p is None for p in parts):
+                    return None
+                return V(TUP(*[p.ty for p in parts]), tuple(parts))
+            if va.ty.kind in ('localfn', 'exc', 'enum', 'zip', 'items'):
+                return va if va.t is vb.t else None
+            return va if va.t.eq(vb.t) else V(va.ty, z3.If(t, va.t, vb.t))
+        try:
+            return V(OBJ, z3.If(t, box(va), box(vb)))
+        except TypeError:
+            return None
 
     def st_Try(self, stmt, st):
         if stmt.finalbody:
@@ -1435,7 +1535,7 @@ class _Loops:
         n = view.length(st) if view is not None else None
         return self.ctx(st, locals_=st.env, i=i, n=n,
                         elem=(lambda j: view.elem(st, j).t) if view is not None else None,
-                        acc=acc, entry=entry_env)
+                        acc=acc, entry=entry_env, extra={'$loop_heap': self._loop_heap})
 
     def cut_loop(self, stmt, st, name, view, target, body, orelse, test, acc_name=None):
         spec = self.proc.loops.get(name)
@@ -1444,6 +1544,14 @@ class _Loops:
         self.nloops_seen.add(name)
         entry_env = dict(st.env)
         line = stmt.lineno
+        saved_loop_heap = getattr(self, '_loop_heap', None)
+        self._loop_heap = st.heap.clone()
+        try:
+            return self._cut_loop(stmt, st, name, view, target, body, orelse, test, acc_name, spec, entry_env)
+        finally:
+            self._loop_heap = saved_loop_heap
+
+    def _cut_loop(self, stmt, st, name, view, target, body, orelse, test, acc_name, spec, entry_env):
         # 1. invariant holds on entry
         i0 = z3.IntVal(0)
         c = self.loop_ctx(st, entry_env, i0, view, acc=st.env.get(acc_name).t if acc_name else None)
@@ -1738,4 +1846,74 @@ class Exec(Exec, _Expr, _Calls, _Contracts, _Stmts, _Loops):
 
 
 class ShapeMismatch(Exception):
+    pass
+
+
+class _Dicts:
+    def bi_dict(self, node, st):
+        if not node.args:
+            r = self.fresh_ref(st, 'dict')
+            self.set_dictval(st, r, EMPTYMAP)
+            return [(st, V(DICT, r))]
+        out = []
+        for s, (v,) in self.args1(node, st, 1):
+            r = self.fresh_ref(s, 'dict')
+            if v.ty.kind == 'zip':
+                a, b = v.t
+                sa, ea = self.seqterm(s, a, node)
+                sb, eb = self.seqterm(s, b, node)
+                sa, sb = self.named(s, sa), self.named(s, sb)
+                n = z3.If(Length(sa) < Length(sb), Length(sa), Length(sb))
+                m = fresh('zipdict', ObjMap)
+                j, j2 = z3.Int('zd_j'), z3.Int('zd_j2')
+                k = z3.Const('zd_k', Obj)
+                bx = (lambda t, e: box(V(e, t)))
+                # keys must be pairwise distinct for the point-wise characterisation (else "last wins")
+                self.oblige(s, 'dict-zip-keys-distinct', z3.ForAll([j, j2], z3.Implies(
+                    z3.And(0 <= j, j < j2, j2 < n), sa[j] != sa[j2])), 'safety', node)
+                s.assume(z3.ForAll([j], z3.Implies(z3.And(0 <= j, j < n), z3.Select(m, bx(sa[j], ea)) == bx(sb[j], eb)),
+                                   patterns=[sa[j]]))
+                s.assume(z3.ForAll([k], z3.Implies(
+                    z3.Not(z3.Exists([j], z3.And(0 <= j, j < n, bx(sa[j], ea) == k))), z3.Select(m, k) == ABSENT),
+                    patterns=[z3.Select(m, k)]))
+                self.set_dictval(s, r, m)
+            elif v.ty.kind == 'dict':
+                self.set_dictval(s, r, self.dictval(s, v.t))
+            elif v.ty.kind == 'items':
+                self.set_dictval(s, r, v.t)
+            else:
+                raise Unsupported(node, 'dict(%r)' % (v.ty,))
+            out.append((s, V(DICT, r)))
+        return out
+
+    def dm_update(self, node, st, recv):
+        out = []
+        for s, (v,) in self.args1(node, st, 1):
+            if v.ty.kind == 'dict':
+                src = self.dictval(s, v.t)
+            elif v.ty.kind == 'items':
+                src = v.t
+            else:
+                raise Unsupported(node, 'update(%r)' % (v.ty,))
+            old = self.dictval(s, recv.t)
+            m = fresh('upd', ObjMap)
+            k = z3.Const('up_k', Obj)
+            s.assume(z3.ForAll([k], z3.Select(m, k) == z3.If(z3.Select(src, k) != ABSENT, z3.Select(src, k),
+                                                               z3.Select(old, k)), patterns=[z3.Select(m, k)]))
+            self.set_dictval(s, recv.t, m)
+            out.append((s, VNONE))
+        return out
+
+    def dm_setdefault(self, node, st, recv):
+        out = []
+        for s, (k, d) in self.args1(node, st, 2):
+            m = self.dictval(s, recv.t)
+            cur = z3.Select(m, box(k))
+            val = z3.If(cur == ABSENT, box(d), cur)
+            self.set_dictval(s, recv.t, z3.Store(m, box(k), val))
+            out.append((s, vobj(val)))
+        return out
+
+
+class Exec(Exec, _Dicts):
     pass
